@@ -340,6 +340,9 @@ fn value_to_sql_literal(value: &OwnedValue) -> String {
     match value {
         OwnedValue::Null => "NULL".to_string(),
         OwnedValue::Bool(b) => if *b { "TRUE" } else { "FALSE" }.to_string(),
+        // negative numbers are parenthesised: `x -?` bound to -3 must not become `x --3`,
+        // which the lexer reads as a comment
+        OwnedValue::Int(i) if *i < 0 => format!("({})", i),
         OwnedValue::Int(i) => i.to_string(),
         OwnedValue::Float(f) => {
             if f.is_nan() {
@@ -350,8 +353,12 @@ fn value_to_sql_literal(value: &OwnedValue) -> String {
                 } else {
                     "'-Infinity'".to_string()
                 }
+            } else if f.is_sign_negative() {
+                format!("({:?})", f)
             } else {
-                f.to_string()
+                // `{:?}` keeps an exponent (1e20) where `{}` prints a 21-digit integer
+                // literal that no longer parses as a number
+                format!("{:?}", f)
             }
         }
         OwnedValue::Text(s) => {
